@@ -270,9 +270,12 @@ fn stage_text(s: Stage) -> &'static str {
     }
 }
 
-fn program(source: &Source, stages: &[Stage], consumer: Consumer, pulls: usize) -> String {
+fn program(source: &Source, stages: &[Stage], consumer: Consumer, pulls: usize, twice: bool) -> String {
     // every stage is bound to a name so that `? T` (which binds tighter) and the others compose as written
     let mut text = String::from(PRELUDE);
+    if twice {
+        text.push_str("once := () -> any {\n");
+    }
     text.push_str(&format!("s0 := {};\n", source_text(source)));
     for (i, st) in stages.iter().enumerate() {
         text.push_str(&format!("s{} := s{}{};\n", i + 1, i, stage_text(*st)));
@@ -299,7 +302,12 @@ fn program(source: &Source, stages: &[Stage], consumer: Consumer, pulls: usize) 
         }
     };
     text.push_str(&body);
-    text.push_str("\n(r, *log)");
+    if twice {
+        // the same function value evaluated twice, then the same loop body evaluated twice
+        text.push_str("\nreturn r };\nr1 := once(); r2 := once();\nseen := mut [any] []; k := mut 0; while *k < 2 { k += 1; seen += [once()] };\n((r1, r2, *seen), *log)");
+    } else {
+        text.push_str("\n(r, *log)");
+    }
     text
 }
 
@@ -308,6 +316,9 @@ struct Job {
     stages: Vec<Stage>,
     consumer: Consumer,
     pulls: usize,
+    /// evaluate the whole pipeline twice through one function value / loop body: the second
+    /// evaluation must see a fresh iterator
+    twice: bool,
 }
 
 fn jobs(thorough: bool) -> Vec<Job> {
@@ -352,13 +363,16 @@ fn jobs(thorough: bool) -> Vec<Job> {
         };
         for p in &pipelines {
             for c in int_consumers {
-                out.push(Job { source: s.clone(), stages: p.clone(), consumer: c, pulls: n + 2 });
+                out.push(Job { source: s.clone(), stages: p.clone(), consumer: c, pulls: n + 2, twice: false });
+                if matches!(s, Source::Array(_)) && p.len() <= 1 {
+                    out.push(Job { source: s.clone(), stages: p.clone(), consumer: c, pulls: n + 2, twice: true });
+                }
             }
             // bool consumers need a bool iterator: map to bool as the last stage
             for c in [Consumer::All, Consumer::Any, Consumer::Collect, Consumer::Manual] {
                 let mut st = p.clone();
                 st.push(Stage::MapToBool);
-                out.push(Job { source: s.clone(), stages: st, consumer: c, pulls: n + 2 });
+                out.push(Job { source: s.clone(), stages: st, consumer: c, pulls: n + 2, twice: false });
             }
         }
     }
@@ -386,18 +400,19 @@ fn jobs(thorough: bool) -> Vec<Job> {
                     let mut st = vec![tf];
                     st.extend(f);
                     for c in [Consumer::Collect, Consumer::For, Consumer::Manual] {
-                        out.push(Job { source: s.clone(), stages: st.clone(), consumer: c, pulls: len + 2 });
+                        out.push(Job { source: s.clone(), stages: st.clone(), consumer: c, pulls: len + 2, twice: false });
                     }
                     if tf == Stage::TypeInt {
                         for c in [Consumer::Sum, Consumer::ReduceG, Consumer::PartitionGt1] {
-                            out.push(Job { source: s.clone(), stages: st.clone(), consumer: c, pulls: 0 });
+                            out.push(Job { source: s.clone(), stages: st.clone(), consumer: c, pulls: 0, twice: false });
                         }
                     }
                 }
             }
             // plain collection / for over the mixed array itself
             for c in [Consumer::Collect, Consumer::For, Consumer::Manual] {
-                out.push(Job { source: s.clone(), stages: vec![], consumer: c, pulls: len + 2 });
+                out.push(Job { source: s.clone(), stages: vec![], consumer: c, pulls: len + 2, twice: true });
+                out.push(Job { source: s.clone(), stages: vec![], consumer: c, pulls: len + 2, twice: false });
             }
         }
     }
@@ -453,8 +468,18 @@ pub fn run(tier: &str) -> i32 {
     let js = jobs(thorough);
     let accs = par_fold(js.len(), Acc::default, |acc, i| {
         let j = &js[i];
-        let text = program(&j.source, &j.stages, j.consumer, j.pulls);
+        let text = program(&j.source, &j.stages, j.consumer, j.pulls, j.twice);
         let (want_r, want_log) = reference(&j.source, &j.stages, j.consumer, j.pulls);
+        let (want_r, want_log) = if j.twice {
+            // four evaluations, each over a fresh iterator
+            let mut l = Vec::new();
+            for _ in 0..4 {
+                l.extend(want_log.iter().copied());
+            }
+            (format!("({want_r}, {want_r}, [{want_r}, {want_r}])"), l)
+        } else {
+            (want_r, want_log)
+        };
         let want_r = if j.consumer == Consumer::Manual && j.pulls == 1 { format!("({want_r}, 0)") } else { want_r };
         let want = format!("({want_r}, [{}])", want_log.iter().map(|x| x.to_string()).collect::<Vec<_>>().join(", "));
         acc.programs += 1;
@@ -508,11 +533,11 @@ pub fn run(tier: &str) -> i32 {
     }
     samples.push(|| {
         let j = &js[js.len() / 3];
-        json!({"program": program(&j.source, &j.stages, j.consumer, j.pulls), "expected": reference(&j.source, &j.stages, j.consumer, j.pulls).0})
+        json!({"program": program(&j.source, &j.stages, j.consumer, j.pulls, j.twice), "expected": reference(&j.source, &j.stages, j.consumer, j.pulls).0})
     });
     samples.push(|| {
         let j = &js[17];
-        json!({"program_tail": program(&j.source, &j.stages, j.consumer, j.pulls).lines().rev().take(4).collect::<Vec<_>>(), "expected_trace": reference(&j.source, &j.stages, j.consumer, j.pulls).1})
+        json!({"program_tail": program(&j.source, &j.stages, j.consumer, j.pulls, j.twice).lines().rev().take(4).collect::<Vec<_>>(), "expected_trace": reference(&j.source, &j.stages, j.consumer, j.pulls).1})
     });
     let Acc { programs, events, outcomes, violations } = acc;
     report.violations(violations);
